@@ -2,6 +2,7 @@ package main
 
 import (
 	"encoding/hex"
+	"math/big"
 	"strings"
 
 	"github.com/polynetwork/poly/common"
@@ -23,6 +24,8 @@ import (
 //
 //	key <pkhex> <addr>                                   declare a validator key (the harness checks addr = address of pk)
 //	height <h>                                           block height of the following transactions
+//	time <t>                                             block timestamp of the following transactions
+//	fee <signers> <addr> <chain> <view> <fee>            side_chain_manager.UpdateFee
 //	init <maxBlockChangeView> <idx:pk:addr>...           node_manager.InitConfig
 //	reg|unreg|appr|white|quit <signers> <pk> <addr>      RegisterCandidate / UnRegisterCandidate / ApproveCandidate / WhiteNode / QuitNode
 //	black <signers> <addr> <pk>...                       BlackNode
@@ -46,7 +49,7 @@ func (w *world) exec(r *hx.Run, op []string) (res string) {
 	// throw-away cache and nothing is committed; whatever it did must be invisible to every later transaction
 	if len(op) > 1 && op[0] == "dry" {
 		switch op[1] {
-		case "key", "height", "dump", "dry", "admit", "refresh", "restart":
+		case "key", "height", "time", "dump", "dry", "admit", "refresh", "restart":
 			return "bad-op"
 		}
 		w.dry = true
@@ -91,6 +94,16 @@ func (w *world) exec(r *hx.Run, op []string) (res string) {
 			return "bad-op"
 		}
 		w.height = uint32(h)
+		return "ok"
+	case "time":
+		if len(op) != 2 {
+			return "bad-op"
+		}
+		t, ok := u64(op[1])
+		if !ok || t > 0xffffffff {
+			return "bad-op"
+		}
+		w.time = uint32(t)
 		return "ok"
 	case "dump":
 		return w.now().text()
@@ -323,6 +336,21 @@ func (w *world) exec(r *hx.Run, op []string) (res string) {
 		}
 		id := hx.UnHex(op[2])
 		cr = w.direct(signers, func(svc *native.NativeService) (bool, error) { return consensus_vote.CheckVotes(svc, id, a) })
+	case "fee":
+		if len(op) != 6 {
+			return "bad-op"
+		}
+		signers, ok1 := parseSigners(op[1])
+		a, ok2 := parseAddr(op[2])
+		chain, ok3 := u64(op[3])
+		view, ok4 := u64(op[4])
+		fee, ok5 := u64(op[5])
+		if !(ok1 && ok2 && ok3 && ok4 && ok5) {
+			return "bad-op"
+		}
+		sink := common.NewZeroCopySink(nil)
+		(&side_chain_manager.UpdateFeeParam{Address: a, ChainId: chain, View: view, Fee: new(big.Int).SetUint64(fee)}).Serialization(sink)
+		cr = w.invoke(signers, utils.SideChainManagerContractAddress, side_chain_manager.UPDATE_FEE, sink.Bytes())
 	case "deposit":
 		if len(op) != 8 {
 			return "bad-op"
